@@ -10,6 +10,7 @@ typedef unsigned long uint64_t;
 int gh_created, gh_c_type, gh_c_binding, gh_c_defined, gh_c_common, gh_c_visibility;
 unsigned long gh_c_index, gh_c_size, gh_substr_pos;
 int gh_ksym_inserted, gh_ksym_key_id, gh_crc_inserted;
+int gh_key_is_new;
 
 /* enumerator values of elf_symbol::type / binding / visibility, loaded from the real enums */
 int T[8], B[4], V[4];
@@ -163,7 +164,7 @@ void h_load_symbol(void)
   size_t in_index = nondet_ulong(); uint64_t in_st_size = nondet_ulong();
   int in_st_info = nondet_int(), in_st_other = nondet_int(), in_st_shndx = nondet_int(), in_is_kernel = nondet_int(),
       in_name_has_ksymtab_prefix = nondet_int(), in_name_has_crc_prefix = nondet_int();
-  gh_created = 0; gh_ksym_inserted = 0; gh_crc_inserted = 0;
+  gh_created = 0; gh_ksym_inserted = 0; gh_crc_inserted = 0; gh_key_is_new = nondet_int();
   w_load_symbol(in_index, in_st_info, in_st_other, in_st_shndx, in_st_size, in_is_kernel,
                 in_name_has_ksymtab_prefix, in_name_has_crc_prefix);
 }
